@@ -9,7 +9,11 @@
   C08): `moments` receives, per centre, the table `solid_harmonics(L, sph(points − centre))`
   (rows in Horton-2 order) exactly as the code computes it and does the same look-ups.
 
-  Hand-written; tied to the code by correspondence (harness/props/c14.py). No Mathlib import.
+  Hand-written; tied to the code by correspondence (harness/props/c14.py) and — for the order
+  generator, the stacking and the row-index arithmetic — by the theorems of `Props/C14/Gen.lean`,
+  which equate the programs *generated* from the source (`Gen/Moments.lean`) with the definitions
+  below. The last section holds the Python/NumPy primitives the generated programs are written in.
+  No Mathlib import.
 -/
 import GridVerif.Model.Elem
 
@@ -182,5 +186,122 @@ def dipole (g : Grid K) (density : List K) (coords : List (List K)) (charges mas
     .ok ((List.zipWith (· - ·) nuclear integrals.flatten).drop 1)
 
 end numeric
+
+/-! ### Python / NumPy primitives of the *generated* code (`Gen/Moments.lean`)
+
+`harness/translate/moments.py` translates `utils.generate_orders_horton_order` and the
+order/index bookkeeping of `Grid.moments` statement by statement into programs over these
+primitives. Everything that raises in Python raises here; nothing is defaulted. -/
+
+/-- `list(range(start, stop, step))`. -/
+def pyRange (start stop step : Int) : List Int :=
+  if 0 < step then
+    (List.range ((stop - start + step - 1) / step).toNat).map fun (n : Nat) => start + step * (n : Int)
+  else if step < 0 then
+    (List.range ((start - stop + (-step) - 1) / (-step)).toNat).map fun (n : Nat) => start + step * (n : Int)
+  else []
+
+/-- `x in [s₁, …]` for strings. -/
+def pyIn (x : String) (l : List String) : Bool := l.contains x
+
+/-- `isinstance(x, (T₁, …))` for a value that is a Python/NumPy integer (the parameter is
+typed `Int`; the harness passes `int`, `np.int32` and `np.int64`): accepted iff the tuple of
+types names all three integer kinds the callers use. -/
+def pyIsInstanceInt (_x : Int) (types : List String) : Bool :=
+  types.contains "int" && types.contains "np.int32" && types.contains "np.int64"
+
+/-- `l[i]` on a list of integers / a shape tuple (negative `i` counts from the end). -/
+def pyGet (l : List Int) (i : Int) : Except Err Int :=
+  let j : Int := if 0 ≤ i then i else i + (l.length : Int)
+  if 0 ≤ j then
+    match l[j.toNat]? with
+    | some v => .ok v
+    | none => .error .indexError
+  else .error .indexError
+
+/-- `l[k:]` for a literal `k ≥ 0`. -/
+def pyDrop (l : List Int) (k : Nat) : List Int := l.drop k
+
+/-- An integer NumPy array of one or two dimensions. -/
+inductive IntArr where
+  | d1 (v : List Int)
+  | d2 (rows : List (List Int))
+  deriving DecidableEq, Repr
+
+/-- `np.array([x, …])` of a flat list of integers: shape `(n,)`. -/
+def npArray1 (v : List Int) : IntArr := .d1 v
+
+/-- `np.array(rows, dtype=int)` of a list of equally long rows: shape `(n, k)`; of the empty
+list: shape `(0,)`. -/
+def npArrayRows (rows : List (List Int)) : IntArr :=
+  if rows.isEmpty then .d1 [] else .d2 rows
+
+/-- `np.atleast_2d(a)` as a list of rows (what `np.vstack` stacks). -/
+def IntArr.rows : IntArr → List (List Int)
+  | .d1 v => [v]
+  | .d2 r => r
+
+/-- `a.reshape(-1, k)` read as rows when `a` is 2-D, `a.reshape(-1, 1)` when `a` is 1-D: the
+form in which the harness compares order arrays (a 1-D array is a column). -/
+def IntArr.col : IntArr → List (List Int)
+  | .d1 v => v.map fun x => [x]
+  | .d2 r => r
+
+/-- `np.vstack((a, b))` (the width check is not modelled: all blocks stacked by
+`Grid.moments` come from the same branch of the order generator). -/
+def npVstack (a b : IntArr) : IntArr := .d2 (a.rows ++ b.rows)
+
+/-- `np.ravel(a)`. -/
+def npRavel : IntArr → List Int
+  | .d1 v => v
+  | .d2 r => r.flatten
+
+/-- Shape tuple after `a.reshape(-1, 1)`. -/
+def npReshapeM1x1 (shape : List Int) : List Int := [shape.foldr (· * ·) 1, 1]
+
+/-- `c0, c1, c2 = a.T` for a 2-D array with three columns and at least one row
+(`ValueError` for any other number of columns; 1-D and empty arrays are not modelled: `TypeError`). -/
+def npUnpack3T : IntArr → Except Err (List Int × List Int × List Int)
+  | .d1 _ => .error .typeError
+  | .d2 [] => .error .typeError
+  | .d2 rows =>
+    if rows.all (fun r => r.length == 3) then
+      .ok (rows.map (fun r => r.getD 0 0), rows.map (fun r => r.getD 1 0), rows.map (fun r => r.getD 2 0))
+    else .error .valueError
+
+/-- elementwise `a ** k`, `k` a literal natural number. -/
+def npPowS (a : List Int) (k : Nat) : List Int := a.map (· ^ k)
+/-- `c * a`. -/
+def npMulS (c : Int) (a : List Int) : List Int := a.map (c * ·)
+/-- `a - c`. -/
+def npSubS (a : List Int) (c : Int) : List Int := a.map (· - c)
+/-- `a + c`. -/
+def npAddS (a : List Int) (c : Int) : List Int := a.map (· + c)
+/-- `np.abs(a)`. -/
+def npAbs (a : List Int) : List Int := a.map fun x => (x.natAbs : Int)
+/-- `a > c`, `a <= c`, `a >= c`, `a < c` (boolean masks). -/
+def npGtS (a : List Int) (c : Int) : List Bool := a.map fun x => decide (x > c)
+def npLeS (a : List Int) (c : Int) : List Bool := a.map fun x => decide (x ≤ c)
+def npGeS (a : List Int) (c : Int) : List Bool := a.map fun x => decide (x ≥ c)
+def npLtS (a : List Int) (c : Int) : List Bool := a.map fun x => decide (x < c)
+
+/-- `a[mask]` (boolean indexing; `IndexError` when the lengths differ). -/
+def npMaskGet (a : List Int) (mask : List Bool) : Except Err (List Int) :=
+  if a.length ≠ mask.length then .error .indexError
+  else .ok ((a.zip mask).filterMap fun xm => if xm.2 then some xm.1 else none)
+
+/-- The selected positions of `a` receive `a[i] + v` for the successive values `v` of `vals`. -/
+def maskAdd : List Int → List Bool → List Int → List Int
+  | x :: xs, true :: ms, v :: vs => (x + v) :: maskAdd xs ms vs
+  | x :: xs, false :: ms, vs => x :: maskAdd xs ms vs
+  | xs, _, _ => xs
+
+/-- `a[mask] += vals` (`IndexError` for a mask of the wrong length, `ValueError` when the
+number of values differs from the number of selected positions; broadcasting of a single
+value is not modelled). -/
+def npMaskIAdd (a : List Int) (mask : List Bool) (vals : List Int) : Except Err (List Int) :=
+  if a.length ≠ mask.length then .error .indexError
+  else if (mask.filter id).length ≠ vals.length then .error .valueError
+  else .ok (maskAdd a mask vals)
 
 end GridVerif.Moments
